@@ -123,6 +123,8 @@ def groups(tier, seed):
             yield {'kind': 'rel', 'zone': zone, 'now': list(now), 'only': None}
     yield {'kind': 'fmt'}
     yield {'kind': 'epoch'}
+    # spellings of a date beside the documented one: read as what they say, or refused - never cut short in silence
+    yield {'kind': 'spelling'}
     # entries a few minutes before and after each change of the zone's offset (also zones that change on a half hour), met in both orders
     for zone in SWITCH_ZONES:
         for rd in ('sorted', 'rev'):
@@ -138,6 +140,8 @@ def single(case):
         return {'kind': 'abs', 'zone': case['zone'], 'base': case['base'], 'only': case['cond']}
     if case['kind'] == 'epoch':
         return {'kind': 'epoch', 'only': case['cond']}
+    if case['kind'] == 'spelling':
+        return {'kind': 'spelling', 'only': case['cond']}
     if case['kind'] == 'switch':
         return {'kind': 'switch', 'zone': case['zone'], 'rd': case['rd']}
     if case['kind'] == 'compound':
@@ -321,6 +325,45 @@ def eval_group(env, group, tier):
                 for op in OPS:
                     conds.append(("%s '%s'" % (op, lit), op, dt.datetime(1970, 1, 1) + dt.timedelta(seconds=a), dt.datetime(1970, 1, 1) + dt.timedelta(seconds=b), 'epoch'))
             run_conds(env, root, 'UTC', floor_times, conds, group, outs, kind='epoch')
+        finally:
+            env.rmtree(root)
+    elif kind == 'spelling':
+        D0 = dt.datetime(2017, 5, 1)
+        at = lambda h, m=0, s_=0: D0 + dt.timedelta(hours=h, minutes=m, seconds=s_)
+        stamps = {'t0000': at(0), 't0200': at(2), 't0310': at(3, 10), 't0830': at(8, 30), 't0900': at(9), 't1200': at(12), 't1400': at(14, 0, 30), 't1510': at(15, 10), 't151030': at(15, 10, 30),
+                  't151031': at(15, 10, 31), 't2030': at(20, 30), 't2359': at(23, 59, 59), 'next': at(24), 'prev': at(-1)}
+        root = env.newdir('c13p')
+        core.materialise(root, {n: F(1, mtime=int(t.replace(tzinfo=dt.timezone.utc).timestamp())) for n, t in stamps.items()})
+        never = (dt.datetime(9999, 1, 1), dt.datetime(9999, 1, 1))
+        lits = [('2017-05-01T15:10:30', at(15, 10, 30), at(15, 10, 30)), ('2017-05-01  15:10:30', at(15, 10, 30), at(15, 10, 30)), ('2017-05-01 15:10:30.5', at(15, 10, 30), at(15, 10, 30)),
+                ('2017-05-01T15:10', at(15, 10), at(15, 10, 59)), ('2017-05-01   09', at(9), at(9, 59, 59)), ('2017-05-01 3:10 pm', at(15, 10), at(15, 10, 59)),
+                ('2017-05-01 8:30pm', at(20, 30), at(20, 30, 59)), ('2017-05-01 2pm', at(14), at(14, 59, 59)),
+                ('2017-05-01, 15:10', at(15, 10), at(15, 10, 59)), ('2017-05-01 noon', at(12), at(12, 59, 59)), ('12017-05-01',) + never, ('2017-05-011',) + never, ('x2017-05-01y',) + never,
+                ('2017-05-01 15:10:30 UTC', at(15, 10, 30), at(15, 10, 30)), ('2017-05-01 15h', at(15), at(15, 59, 59)), ('2017-05-01 1510', at(15, 10), at(15, 10, 59))]
+        try:
+            for lit, a, b in lits:
+                for op in ('=', '<', '>', '>=', '!='):
+                    cond = "%s '%s'" % (op, lit)
+                    if group.get('only') is not None and cond != group['only']:
+                        continue
+                    q = 'name from . where modified %s into list' % cond
+                    o = env.run([q], cwd=root, env={'TZ': 'UTC'})
+                    exp = sorted(n for n, t in stamps.items() if truth(op, t, a, b))
+                    exp_instant = sorted(n for n, t in stamps.items() if truth(op, t, a, a))      # the free-form reader names an instant, not a span
+                    r = {'case': {'kind': 'spelling', 'cond': cond}, 'nt': True, 'layer': 'other-spellings', 'trans': len(stamps)}
+                    if o.timeout or o.panicked or o.rc not in (0, 2):
+                        r.update(status='viol', cls='spelling:status', detail=dict(o.brief(), query=q), sig=('err', o.rc))
+                    elif o.rc == 2:
+                        if o.out or not o.err:
+                            r.update(status='viol', cls='spelling:refused-without-diagnostic-or-with-rows', detail=dict(o.brief(), query=q), sig=('refuse',))
+                        else:
+                            r.update(status='ok', sig=('refused', lit))
+                    elif sorted(o.rows()) not in (exp, exp_instant):
+                        r.update(status='viol', cls='spelling:cut-short', sig=('rows', lit),
+                                 detail={'query': q, 'missing': sorted(set(exp) - set(o.rows())), 'extra': sorted(set(o.rows()) - set(exp)), 'literal_means': [str(a), str(b)]})
+                    else:
+                        r.update(status='ok', sig=('read', lit, op))
+                    outs.append(r)
         finally:
             env.rmtree(root)
     elif kind == 'switch':
